@@ -512,6 +512,14 @@ func agreeSplit(r *engine.Run) {
 			}
 			sameS := engine.ValKey(pf.s) == engine.ValKey(qs)
 			sameK := pf.k != nil && qk != nil && engine.ValKey(pf.k) == engine.ValKey(qk)
+			if what == "descent" && pf.k == nil && pf.s != nil && isEmptyBytes(q) {
+				// the whole rest of the key goes into the prefix, nothing remains: prefix ++ path, Path{}
+				sameS, sameK = true, true
+			}
+			if what == "descent" && pf.k == nil && qk != nil && pf.s != nil && isLenOf(stripConv(qk), pf.s) {
+				// below an extension: prefix ++ (the extension's whole path), remainder = path[len(that path):]
+				sameS, sameK = true, true
+			}
 			if leaf != nil {
 				// own prefix goes with own path
 				if ld, ok := pf.s.(*ssa.UnOp); ok {
@@ -531,6 +539,22 @@ func agreeSplit(r *engine.Run) {
 			case *ssa.Call:
 				if staticCalleeIs(x, pkgUtil, "MerklePatriciaTrie", "insertLeaf") && f.Name() != "insertLeaf" {
 					check(in, "insertLeaf", x.Call.Args[3], x.Call.Args[4])
+				}
+				// the walks hand the position's prefix down together with the remaining path:
+				// the two must add up to the key at every level, or the leaves built below get
+				// a prefix (which is hashed) that is not their position
+				for _, walk := range []string{"insert", "delete"} {
+					if staticCalleeIs(x, pkgUtil, "MerklePatriciaTrie", walk) && recvNamed(f) == "MerklePatriciaTrie" && f.Object() != nil && !f.Object().Exported() {
+						var bs []ssa.Value
+						for _, a := range x.Call.Args[1:] {
+							if isByteSlice(a.Type()) {
+								bs = append(bs, a)
+							}
+						}
+						if len(bs) >= 2 {
+							check(in, "descent", bs[len(bs)-2], bs[len(bs)-1])
+						}
+					}
 				}
 			case *ssa.Store:
 				fa, ok := x.Addr.(*ssa.FieldAddr)
@@ -568,4 +592,30 @@ func agreeSplit(r *engine.Run) {
 	if n < 10 {
 		r.Anchor(rule, fmt.Errorf("unresolved anchor: only %d leaf constructions found", n))
 	}
+}
+
+// isEmptyBytes: v is a byte slice of length zero by construction (nil, Path(""), Path{}, make(Path, 0)).
+func isEmptyBytes(v ssa.Value) bool {
+	v = stripCT(v)
+	switch x := v.(type) {
+	case *ssa.Const:
+		return x.Value == nil
+	case *ssa.Convert:
+		if c := constVal(x.X); c != nil && c.ExactString() == `""` {
+			return true
+		}
+	case *ssa.MakeSlice:
+		if k, ok := intConst(x.Len); ok && k == 0 {
+			return true
+		}
+	case *ssa.Slice:
+		if al, ok := x.X.(*ssa.Alloc); ok {
+			if pt, ok := al.Type().Underlying().(*types.Pointer); ok {
+				if at, ok := pt.Elem().Underlying().(*types.Array); ok && at.Len() == 0 {
+					return true
+				}
+			}
+		}
+	}
+	return false
 }
